@@ -6,7 +6,7 @@ set -u
 id=$1
 src=/tmp/wt/$id/MUTANT
 wt=/tmp/wt/verify_$id
-base=005d6e3
+base=${2:-005d6e3}
 git -C /repo worktree add --detach $wt $base -q || exit 2
 cp -r $src $wt/MUTANT
 cd $wt
@@ -19,11 +19,11 @@ echo "$id: demo_without=$r_without demo_with=$r_with tests='$tests' diff='$stat'
 mkdir -p /verif/seeded/$id
 cp MUTANT/patch.diff MUTANT/demo.py /verif/seeded/$id/
 for f in MUTANT/*.py; do cp $f /verif/seeded/$id/; done
-python3 - "$id" "$r_without" "$r_with" "$tests" <<'PY'
+python3 - "$id" "$r_without" "$r_with" "$tests" "$base" <<'PY'
 import json, sys
 id, rwo, rw, tests = sys.argv[1:5]
 m = json.load(open('MUTANT/meta.json'))
-m['verified_by_main'] = {'base_commit': '005d6e3', 'demo_without_change_exit': int(rwo), 'demo_with_change_exit': int(rw),
+m['verified_by_main'] = {'base_commit': sys.argv[5], 'demo_without_change_exit': int(rwo), 'demo_with_change_exit': int(rw),
                          'repo_tests_with_change': tests,
                          'ran': 'fresh worktree of the pinned commit; python MUTANT/demo.py; git apply MUTANT/patch.diff; python MUTANT/demo.py; python -m pytest -q (serial)'}
 json.dump(m, open('/verif/seeded/%s/meta.json' % id, 'w'), indent=1)
